@@ -147,7 +147,7 @@ Obs_C04_Held ==
 \* C05: queries change nothing durable; a part of an already delivered version is
 \* acknowledged and neither re-stages nor re-delivers anything
 Obs_C05_QueryNoEffect ==
-  (oE.op = "cmd" /\ oE.cmd.op \in {"status", "received", "scan"} /\ ~oE.crashed) =>
+  (oE.op = "cmd" /\ oE.cmd.op \in {"status", "received", "received2", "scan"} /\ ~oE.crashed) =>
      (SameBodies /\ oD.part = oP.part /\ oD.cmp = oP.cmp)
 Obs_C05_DupAnswered ==
   (IsCmd("recv") /\ ~oE.crashed /\ oE.cmd.dv = oE.cmd.v /\ oE.cmd.lo = 1 /\ oE.cmd.hi = NB) =>
@@ -175,6 +175,18 @@ Obs_C09_Received ==
      IN \/ StaleH(oH, n) \/ ShadowH(oH, n)
         \/ inBody(oD.part[n]) \/ inBody(oD.full[n]) \/ inBody(oD.waitf[n])
         \/ LoggedD(oD, n, v) \/ oH.arrive[<<n, v>>] > 0
+
+\* the count answered for a list of parts covers only LEADING parts that are on record
+Obs_C09_ReceivedN ==
+  (IsCmd("received2") /\ ~oE.crashed) =>
+     LET onRecord(n, v, lo, hi) ==
+           LET inBody(body) == body # Nil /\ \A k \in lo..hi : body[k] # Z
+           IN \/ StaleH(oH, n) \/ ShadowH(oH, n)
+              \/ inBody(oD.part[n]) \/ inBody(oD.full[n]) \/ inBody(oD.waitf[n])
+              \/ LoggedD(oD, n, v) \/ oH.arrive[<<n, v>>] > 0
+         c == oE.cmd
+     IN /\ oE.res \in {"1", "2"} => onRecord(c.n, c.v, c.lo, c.hi)
+        /\ oE.res = "2" => onRecord(c.n2, c.v2, c.lo2, c.hi2)
 
 \* C20: cleaning touches nothing but day-old partials (and their companions)
 Obs_C20_NoTouch ==
